@@ -9,8 +9,22 @@ Call histories: forests of live contexts on which overloads are registered and d
 in between from old and new contexts; every call is compared with the rules and with the Lean model
 (`Yaql.ResolveCtx.run` / `resolveIn`, the C17 context model joined with `Resolve`) applied to the
 family AS REGISTERED AT THAT MOMENT, which the harness records from its own API calls.
+Definitions from real Python callables: about half of the overloads are randomly WRITTEN Python functions (plain
+defs, closures of one factory, lambdas, functions of a factory-made class; positional / defaulted / *args /
+keyword-only with and without defaults / **kwargs; hidden parameters by name or by @specs.inject; @specs.parameter
+with smart types, bare classes, nullable, alias, by name or by index, in a shuffled order; @specs.method /
+extension_method / name / no_kwargs / meta) that reach the context as prepared definitions (with / without the naming
+convention) or as callables handed to register_function.  The FunctionDefinition the DOCUMENTED rules prescribe
+(`resolvelib.expected_fd`) is derived from the generated signature alone, compared with what yaql built
+(`definition-table`), and it - not yaql's own table - is what the rules transcription resolves on; the Lean model of
+get_function_definition (`Yaql.Signature.define`) is run on the same signature + decorators and compared entry by entry.
+Sharing: the same definition object / the same callable is registered in several contexts of a forest (plain,
+MultiContext, LinkedContext) with different exclusive flags, in both orders, before and after calls.
+The harness observes yaql through its public API only (constructors, register_function, delete_function,
+get_functions, calls) and keeps its own record of the registrations (`ctxrecord.Forest`).
 Oracle (real code alone): `resolvelib.spec_resolve`, an independent transcription of
-doc/source/extending_yaql.rst "Function resolution rules" + "single most specific match"."""
+doc/source/extending_yaql.rst "Function resolution rules" + "single most specific match", applied to the
+documented definitions and the recorded registrations."""
 import copy
 import json
 
@@ -401,19 +415,24 @@ def features(case, real, hist):
 def run(env, res):
     drv = env['driver']
     rng = common.make_rng(env['seed'], 'C05')
-    n_fam = 8000 if env["tier"] == "quick" else 90000
+    n_fam = 8000 if env["tier"] == "quick" else 70000
     res.rule = ('random overload families (1-4 layers, 0-4 overloads per layer, parameters positional/defaulted/keyword-only/'
                 '*/**/hidden/lazy/constant over the lattice Base>L,R>D + int/str/object/NoneType) with 3 calls each derived '
                 'from a random overload\'s signature and mutated; distinct = distinct (family, call); non-trivial = '
                 'at least two overloads and the outcome is not Unknown')
     hist = {}
-    n_hist = 3200 if env["tier"] == "quick" else 36000
+    n_hist = 3200 if env["tier"] == "quick" else 28000
     res.rule += ('; plus call histories on live Context forests (1-7 contexts): overloads of a pool of 2-6 are registered '
                  'step by step (same / ancestor / descendant / sibling contexts, some exclusively, some twice), deleted '
                  'with delete_function, children are created before and after, and calls - new ones and repeated '
                  'earlier ones - are made in between from old and new contexts; every call is compared with the rules '
                  'and the model applied to the family AS REGISTERED AT THAT MOMENT (the harness\'s own record of the API '
-                 'calls); distinct = distinct history')
+                 'calls); contexts are plain Contexts, MultiContexts over existing ones and LinkedContexts (40 % of the '
+                 'histories); half of the overloads are randomly written Python callables (def / closure of one factory / '
+                 'lambda / class function; decorators in shuffled order; hidden by name; bare classes; by index; python-style '
+                 'names under the CamelCase convention) registered as prepared definitions or as callables; one definition '
+                 'object / one callable is registered in several contexts with different exclusive flags in both orders '
+                 '(45 % of the histories favour it); distinct = distinct history')
     if env['replay']:
         rp = json.load(open(env['replay']))
         cases = [rp['case']]
@@ -464,7 +483,7 @@ def run(env, res):
                 res.traces += 1 if models else 0
                 features(case, real, hist)
                 for kind, key, msg in fs[:1]:
-                    if len(res.failures) < 6:
+                    if len(res.failures) < 3:
                         small = shrink(case, drv, kind, key)
                         fs2, _, _ = run_case(small, drv)
                         msg2 = next((m for k, ky, m in fs2 if k == kind and ky == key), msg)
@@ -485,7 +504,7 @@ def run(env, res):
         batch.append((layers, fam, calls, cspecs))
         if len(batch) >= 200:
             flush()
-        if len(res.failures) >= 12:
+        if len(res.failures) >= 6:
             break
     flush()
 
@@ -513,7 +532,7 @@ def run(env, res):
                 if (kind, key) in done:
                     continue
                 done.add((kind, key))
-                if sum(1 for f in res.failures if str(f.key).startswith('history-')) < 4:
+                if sum(1 for f in res.failures if str(f.key).startswith('history-')) < 2:
                     small = shrink_history(hspec, drv, kind, key)
                     fs2, _ = run_history(small, drv)
                     msg2 = next((m for k, ky, m in fs2 if k == kind and ky == key), msg)
@@ -532,7 +551,7 @@ def run(env, res):
         hbatch.append((hspec, h, recs))
         if len(hbatch) >= 150:
             hflush()
-        if len(res.failures) - nfail0 >= 8:
+        if len(res.failures) - nfail0 >= 4:
             break
     hflush()
     hist.pop('hist:sampled', None)
@@ -546,12 +565,19 @@ LEVEL_TEXT = ('Lean 4 theorems over a code-shaped model of runner.call/choose_ov
               '(C05Hist): a call made at any moment of any history of register_function / delete_function / '
               'create_child_context operations resolves as the rules prescribe for the family the context chain denotes at '
               'that moment (resolveIn_eq_spec, via C17 layers), two histories that end in the same visible family give the '
-              'same outcome (resolve_history_independent), and registrations / deletions outside the chain are invisible. '
+              'same outcome (resolve_history_independent), and registrations / deletions outside the chain are invisible; '
+              'for the step from a Python callable to the parameter table (C05Sig, model Yaql.Signature of set_parameter / '
+              'get_function_definition): every entry has the key, position and default its argument has in the Python '
+              'signature (define_sound, define_complete), so every argument with a Python default - positional or '
+              'keyword-only - gets it and no other does (defaults_complete, mandatory_stay_mandatory), whatever the order '
+              'of the decorators (define_perm); and the 284 definitions of the live standard library are the ones this '
+              'translation derives from inspect.signature of their payloads (C05SigGen, regenerated each run). '
               'The model is tied to the code by running generated families and generated call histories on real Context '
               'chains and on the compiled model (the real FunctionDefinition objects are what is serialised), comparing '
               'chosen overload / error class, evaluation log and bound argument vector, and by an independent Python '
               'transcription of the written rules.')
-LEVEL_NOTE = ('trusted: Lean kernel; hand-written models Yaql/Model/Types.lean, Resolve.lean, Context.lean, ResolveCtx.lean; '
+LEVEL_NOTE = ('trusted: Lean kernel; hand-written models Yaql/Model/Types.lean, Resolve.lean, Context.lean, ResolveCtx.lean, '
+              'Signature.lean; the transcription of the documented definition rules (expected_fd); '
               'the encoder of real objects; the differential harness, its record of the registrations and the rules '
               'transcription. All theorems are unconditional.')
 TECHNIQUE = ('Lean 4 proof (induction over candidate lists / parameter lists / context shapes) + differential testing '
